@@ -167,6 +167,9 @@ def bounded(tier, seed, repo_root):
         for b in base:
             for o in gt.OPTION_COMBOS[::3]:
                 jobs.append((a, b, o, False))
+    for a, b in D.hash_collision_pairs():      # distinct values with equal Python hashes (-1 / -2, n / n + 2**61 - 1)
+        for o in gt.OPTION_COMBOS[::2]:
+            jobs.append((a, b, o, False))
     fails = [f for fs in pmap(_job, jobs, repo_root, job_timeout=60, on_timeout=timeout_failure('C06')) for f in fs]
     return [{
         'name': 'C06.monitoring-printer', 'bound': f"JSON documents <= {3 if tier == 'quick' else 4} nodes over {atoms!r} "
